@@ -299,6 +299,23 @@ theorem splitLines_wire (content : Bytes) (l : Line) (rest : Bytes) (h1 : NL ∉
   · exact splitLines_line content rest h1 h2
 
 
+/-- `splitLines_wire`, asking for "no CR at the end" only where it matters: of a line that is not written with CR LF -/
+theorem splitLines_wire' (content : Bytes) (l : Line) (rest : Bytes) (h1 : NL ∉ content)
+    (h2 : l.newline ≠ .crlf → content.getLast? ≠ some CR) :
+    splitLines (content ++ (lineEnd l ++ rest)) = ⟨content, wireNl l⟩ :: splitLines rest := by
+  unfold lineEnd wireNl
+  split
+  · have e : content ++ ([CR, NL] ++ rest) = (content ++ [CR]) ++ NL :: rest := by simp
+    have h1' : NL ∉ content ++ [CR] := by
+      intro hm
+      rcases List.mem_append.1 hm with h | h
+      · exact h1 h
+      · simp at h; exact absurd h (by decide)
+    unfold splitLines
+    rw [e, splitLinesGo_line _ _ _ h1', List.nil_append, mkLine_cr]
+  · next hn => exact splitLines_line content rest h1 (h2 hn)
+
+
 
 
 
@@ -523,9 +540,24 @@ theorem peek_body (rest : List PatchLine) (after : List Line) (h : AfterOK after
     simp only [bodyLines, List.cons_append]
     rcases hops pl List.mem_cons_self with h | h | h <;> rw [h] <;> decide
 
+/-- the marker on the last line: the line loses its terminator; the CR of a CR LF terminator stays, as content
+    (statement changed with the model, `mark_as_unterminated`; before: `… = L ++ [⟨op, ⟨c, .none⟩⟩]` for every `nl`) -/
 theorem markLastNone_snoc (L : List PatchLine) (op : UInt8) (c : Bytes) (nl : NewLine) :
-    markLastNone (L ++ [⟨op, ⟨c, nl⟩⟩]) = L ++ [⟨op, ⟨c, .none⟩⟩] := by
+    markLastNone (L ++ [⟨op, ⟨c, nl⟩⟩]) = L ++ [⟨op, ⟨if nl = .crlf then c ++ [CR] else c, .none⟩⟩] := by
   unfold markLastNone; simp
+
+/-- the old form of `markLastNone_snoc`, for a line that does not end in CR LF -/
+theorem markLastNone_snoc_of_ne (L : List PatchLine) (op : UInt8) (c : Bytes) (nl : NewLine) (h : nl ≠ .crlf) :
+    markLastNone (L ++ [⟨op, ⟨c, nl⟩⟩]) = L ++ [⟨op, ⟨c, .none⟩⟩] := by
+  rw [markLastNone_snoc, if_neg h]
+
+theorem markLastNone_snoc_lf (L : List PatchLine) (op : UInt8) (c : Bytes) :
+    markLastNone (L ++ [⟨op, ⟨c, .lf⟩⟩]) = L ++ [⟨op, ⟨c, .none⟩⟩] :=
+  markLastNone_snoc_of_ne L op c .lf (by decide)
+
+theorem markLastNone_snoc_crlf (L : List PatchLine) (op : UInt8) (c : Bytes) :
+    markLastNone (L ++ [⟨op, ⟨c, .crlf⟩⟩]) = L ++ [⟨op, ⟨c ++ [CR], .none⟩⟩] := by
+  rw [markLastNone_snoc, if_pos rfl]
 
 theorem sides_ne_nil (rest : List PatchLine) (hne : rest ≠ [])
     (hops : ∀ pl ∈ rest, pl.op = SP ∨ pl.op = PLUS ∨ pl.op = MINUS) :
@@ -633,24 +665,98 @@ theorem getLine_wire (content : Bytes) (nl : NewLine) (hnl : nl ≠ .none) (r : 
 
 theorem peek_marker (r : List Line) (e b : Bool) : PStream.peek ⟨markerLine :: r, e, b⟩ = BACKSLASH := rfl
 
-/-- the state after the two bookkeeping steps of one emitted hunk line -/
-theorem steps_spec (pl : PatchLine) (rest' : List PatchLine) (n : Nat) (hunks : List Hunk) (o nw : Range)
-    (L : List PatchLine) (after : List Line)
+/-! ### the hunk loop over any wire form of the lines (a last line that ends in a bare CR)
+
+`Hunk.writable` (Spec/Diff) forbids a trailing CR in the content of EVERY line.  With `mark_as_unterminated` (the marker
+keeps the CR of the line before it as content) only a line that ends in LF has to do without one:
+* a `.crlf` line `c CR` is written `c CR CR LF` and read back as `c CR` + CR LF;
+* a `.none` line `c CR` is written `c CR LF` + marker, read as `c` + CR LF, and the marker gives `c CR` back;
+* a `.lf` line `c CR` is written `c CR LF` and read back as `c` + CR LF: the one case that can not come back.
+So the lemmas about the hunk loop are proved over an arbitrary "wire form" `w` of a line (`WireOK`): `wireLf`
+(`⟨content, wireNl⟩`, the form `bodyLines` / `hunkLines` use: right for `writable` hunks) and `wire` (what `splitLines`
+really gives: right for `writableCR` hunks) are instances, and `steps_spec`, `unifiedLoop_body`, `unifiedLoop_hunks`,
+`unified_roundtrip` below are the instances for `wireLf` of `steps_specG`, `unifiedLoop_bodyG`, `unifiedLoop_hunksG`,
+`unified_roundtrip_cr`. -/
+
+/-- the line as it stands in the text of a diff: a line without newline is written with LF (and followed by the marker), so
+    that a CR it ends in is read as part of a CR LF terminator -/
+def wire (l : Line) : Line := if l.newline = .none then mkLine l.content else l
+
+/-- what a wire form has to satisfy for the reader to give the line back -/
+def WireOK (w : Line → Line) : Prop :=
+  ∀ l, (w l).newline ≠ .none ∧ (l.newline ≠ .none → w l = l) ∧
+    (l.newline = .none → (if (w l).newline = .crlf then (w l).content ++ [CR] else (w l).content) = l.content)
+
+theorem wireOK_wire : WireOK wire := by
+  intro l
+  refine ⟨?_, ?_, ?_⟩
+  · unfold wire; split
+    · exact Render.mkLine_newline_ne_none _
+    · assumption
+  · intro h; unfold wire; rw [if_neg h]
+  · intro h
+    unfold wire; rw [if_pos h]
+    unfold mkLine
+    split
+    · next hc => simp only [if_true]; exact Render.dropLast_append_of_getLast? _ _ hc
+    · simp
+
+/-- the wire form used above -/
+def wireLf (l : Line) : Line := ⟨l.content, wireNl l⟩
+
+theorem wireOK_wireLf : WireOK wireLf := by
+  intro l
+  refine ⟨wireNl_ne_none l, ?_, ?_⟩
+  · intro h; rcases l with ⟨c, nl⟩; simp only [wireLf, wireNl_of_ne_none h]
+  · intro h; simp only [wireLf, wireNl_of_none h]; simp
+
+/-- the lines of the body of an emitted hunk, over a wire form -/
+def bodyLinesG (w : Line → Line) : List PatchLine → List Line
+  | [] => []
+  | pl :: rest => ⟨pl.op :: (w pl.line).content, (w pl.line).newline⟩ ::
+      ((if pl.line.newline = .none then [markerLine] else []) ++ bodyLinesG w rest)
+
+def hunkLinesG (w : Line → Line) (h : Hunk) : List Line := ⟨rangeText h, .lf⟩ :: bodyLinesG w h.lines
+
+theorem bodyLines_eq : bodyLines = bodyLinesG wireLf := by
+  funext ls
+  induction ls with
+  | nil => rfl
+  | cons pl rest ih => simp only [bodyLines, bodyLinesG, ih]; rfl
+
+theorem hunkLines_eq : hunkLines = hunkLinesG wireLf := by
+  funext h; simp only [hunkLines, hunkLinesG, bodyLines_eq]
+
+theorem peek_bodyG (w : Line → Line) (rest : List PatchLine) (after : List Line) (h : AfterOK after)
+    (hops : ∀ pl ∈ rest, pl.op = SP ∨ pl.op = PLUS ∨ pl.op = MINUS) (e b : Bool) :
+    PStream.peek ⟨bodyLinesG w rest ++ after, e, b⟩ ≠ BACKSLASH := by
+  cases rest with
+  | nil => exact peek_after after h e b
+  | cons pl r =>
+    unfold PStream.peek
+    simp only [bodyLinesG, List.cons_append]
+    rcases hops pl List.mem_cons_self with h | h | h <;> rw [h] <;> decide
+
+/-- `steps_spec` for any text line `wl` that the marker (if the line lacks its newline) turns back into the hunk line;
+    `body`: the text of the hunk lines that follow -/
+theorem steps_specG (pl : PatchLine) (wl : Line) (rest' : List PatchLine) (n : Nat) (hunks : List Hunk) (o nw : Range)
+    (L : List PatchLine) (body after : List Line)
     (hop : pl.op = SP ∨ pl.op = PLUS ∨ pl.op = MINUS)
-    (hops : ∀ pl ∈ rest', pl.op = SP ∨ pl.op = PLUS ∨ pl.op = MINUS)
-    (hnl : noNlOnlyLast (pl :: rest') = true) (hafter : AfterOK after) :
-    ∃ n', stepOld (stepNew ⟨⟨⟨(if pl.line.newline = .none then [markerLine] else []) ++ bodyLines rest' ++ after, false, false⟩, n⟩,
-              hunks, ⟨o, nw, L ++ [⟨pl.op, ⟨pl.line.content, wireNl pl.line⟩⟩]⟩, true,
+    (hpk : PStream.peek ⟨body ++ after, false, false⟩ ≠ BACKSLASH)
+    (hnl : noNlOnlyLast (pl :: rest') = true)
+    (h1 : pl.line.newline ≠ .none → wl = pl.line)
+    (h2 : pl.line.newline = .none → (if wl.newline = .crlf then wl.content ++ [CR] else wl.content) = pl.line.content) :
+    ∃ n', stepOld (stepNew ⟨⟨⟨(if pl.line.newline = .none then [markerLine] else []) ++ body ++ after, false, false⟩, n⟩,
+              hunks, ⟨o, nw, L ++ [⟨pl.op, ⟨wl.content, wl.newline⟩⟩]⟩, true,
               (oldOf (pl :: rest')).length, (newOf (pl :: rest')).length⟩ pl.op) pl.op
-      = ⟨⟨⟨bodyLines rest' ++ after, false, false⟩, n'⟩, hunks, ⟨o, nw, L ++ [pl]⟩, true,
+      = ⟨⟨⟨body ++ after, false, false⟩, n'⟩, hunks, ⟨o, nw, L ++ [pl]⟩, true,
           (oldOf rest').length, (newOf rest').length⟩ := by
   rcases pl with ⟨op, ⟨c, nl⟩⟩
-  have hpk := peek_body rest' after hafter hops false false
-  simp only at hop
+  simp only at hop h1 h2
   by_cases hn : nl = .none
   · subst hn
-    have hwn : wireNl ⟨c, NewLine.none⟩ = .lf := rfl
-    simp only [hwn, if_true, List.cons_append]
+    have h2' := h2 rfl
+    simp only [if_true, List.cons_append, List.nil_append]
     unfold noNlOnlyLast at hnl
     simp only [if_true, Bool.and_eq_true] at hnl
     rcases hop with rfl | rfl | rfl
@@ -658,9 +764,9 @@ theorem steps_spec (pl : PatchLine) (rest' : List PatchLine) (n : Nat) (hunks : 
       subst hr
       refine ⟨n + 1, ?_⟩
       rw [Splice.oldOf_cons_not_plus rfl, Splice.newOf_cons_not_minus rfl]
-      simp only [Splice.oldOf_nil, Splice.newOf_nil, List.length_cons, List.length_nil, bodyLines, List.nil_append] at hpk ⊢
+      simp only [Splice.oldOf_nil, Splice.newOf_nil, List.length_cons, List.length_nil]
       rw [stepNew_mark _ _ (Or.inl rfl) (by simp) (peek_marker _ _ _)]
-      simp only [markerLine, getLine_lf, markLastNone_snoc]
+      simp only [markerLine, getLine_lf, markLastNone_snoc, h2']
       rw [stepOld_nomark _ _ (Or.inl rfl) hpk]
       simp
     · have hr : newOf rest' = [] := by simpa using hnl.1
@@ -668,17 +774,18 @@ theorem steps_spec (pl : PatchLine) (rest' : List PatchLine) (n : Nat) (hunks : 
       rw [Splice.oldOf_cons_plus rfl, Splice.newOf_cons_not_minus rfl, hr]
       simp only [List.length_cons, List.length_nil]
       rw [stepNew_mark _ _ (Or.inr rfl) (by simp) (peek_marker _ _ _), stepOld_plus]
-      simp only [markerLine, getLine_lf, markLastNone_snoc]
+      simp only [markerLine, getLine_lf, markLastNone_snoc, h2']
       simp
     · have hr : oldOf rest' = [] := by simpa using hnl.1
       refine ⟨n + 1, ?_⟩
       rw [Splice.oldOf_cons_not_plus rfl, Splice.newOf_cons_minus rfl, hr]
       simp only [List.length_cons, List.length_nil]
       rw [stepNew_minus, stepOld_mark _ _ (Or.inr rfl) (by simp) (peek_marker _ _ _)]
-      simp only [markerLine, getLine_lf, markLastNone_snoc]
+      simp only [markerLine, getLine_lf, markLastNone_snoc, h2']
       simp
-  · have hwn : wireNl ⟨c, nl⟩ = nl := wireNl_of_ne_none hn
-    simp only [hwn, hn, if_false, List.nil_append]
+  · have hw := h1 hn
+    subst hw
+    simp only [hn, if_false, List.nil_append]
     refine ⟨n, ?_⟩
     rcases hop with rfl | rfl | rfl
     · rw [Splice.oldOf_cons_not_plus rfl, Splice.newOf_cons_not_minus rfl]
@@ -690,6 +797,65 @@ theorem steps_spec (pl : PatchLine) (rest' : List PatchLine) (n : Nat) (hunks : 
     · rw [Splice.oldOf_cons_not_plus rfl, Splice.newOf_cons_minus rfl]
       rw [stepNew_minus, stepOld_nomark _ _ (Or.inr rfl) hpk]
       simp
+
+theorem bodyLinesG_cons_append (w : Line → Line) (pl : PatchLine) (rest' : List PatchLine) (after : List Line) :
+    bodyLinesG w (pl :: rest') ++ after = ⟨pl.op :: (w pl.line).content, (w pl.line).newline⟩ ::
+      ((if pl.line.newline = .none then [markerLine] else []) ++ bodyLinesG w rest' ++ after) := by
+  simp [bodyLinesG]
+
+/-- the loop over the body of one emitted hunk, over a wire form -/
+theorem unifiedLoop_bodyG (w : Line → Line) (hw : WireOK w) : ∀ (rest : List PatchLine) (fuel n : Nat) (hunks : List Hunk)
+    (o nw : Range) (L : List PatchLine) (after : List Line), rest ≠ [] →
+    (∀ pl ∈ rest, pl.op = SP ∨ pl.op = PLUS ∨ pl.op = MINUS) → noNlOnlyLast rest = true → AfterOK after →
+    (bodyLinesG w rest ++ after).length + 1 ≤ fuel →
+    ∃ fuel' n', after.length + 1 ≤ fuel' ∧
+      unifiedLoop fuel ⟨⟨⟨bodyLinesG w rest ++ after, false, false⟩, n⟩, hunks, ⟨o, nw, L⟩, true,
+          (oldOf rest).length, (newOf rest).length⟩
+        = afterHunk fuel' ⟨⟨⟨after, false, false⟩, n'⟩, hunks ++ [⟨o, nw, L ++ rest⟩], ⟨o, nw, []⟩,
+            true, 0, 0⟩ := by
+  intro rest
+  induction rest with
+  | nil => intro _ _ _ _ _ _ _ h; exact absurd rfl h
+  | cons pl rest' ih =>
+    intro fuel n hunks o nw L after _ hops hnl hafter hfuel
+    have hop := hops pl List.mem_cons_self
+    have hops' : ∀ x ∈ rest', x.op = SP ∨ x.op = PLUS ∨ x.op = MINUS := fun x hx => hops x (List.mem_cons_of_mem _ hx)
+    rw [bodyLinesG_cons_append] at hfuel ⊢
+    obtain ⟨f, rfl⟩ : ∃ f, fuel = f + 1 := ⟨fuel - 1, by simp at hfuel; omega⟩
+    rw [unifiedLoop_content f _ ⟨pl.op :: (w pl.line).content, (w pl.line).newline⟩ _ pl.op (w pl.line).content
+      (getLine_wire _ _ (hw pl.line).1 _ _) rfl rfl hop]
+    obtain ⟨n', hn'⟩ := steps_specG pl (w pl.line) rest' (n + 1) hunks o nw L (bodyLinesG w rest') after hop
+      (peek_bodyG w rest' after hafter hops' false false) hnl (hw pl.line).2.1 (hw pl.line).2.2
+    dsimp only
+    rw [hn']
+    dsimp only
+    by_cases hr : rest' = []
+    · subst hr
+      refine ⟨f, n', ?_, ?_⟩
+      · simp at hfuel ⊢; omega
+      · simp [oldOf, newOf, bodyLinesG]
+    · rw [if_neg (sides_ne_nil rest' hr hops')]
+      have hnl' : noNlOnlyLast rest' = true := by
+        unfold noNlOnlyLast at hnl; simp only [Bool.and_eq_true] at hnl; exact hnl.2
+      obtain ⟨fuel', n'', h1, h2⟩ := ih f n' hunks o nw (L ++ [pl]) after hr hops' hnl' hafter
+        (by simp at hfuel ⊢; omega)
+      refine ⟨fuel', n'', h1, ?_⟩
+      rw [h2]; simp
+
+
+/-- the state after the two bookkeeping steps of one emitted hunk line -/
+theorem steps_spec (pl : PatchLine) (rest' : List PatchLine) (n : Nat) (hunks : List Hunk) (o nw : Range)
+    (L : List PatchLine) (after : List Line)
+    (hop : pl.op = SP ∨ pl.op = PLUS ∨ pl.op = MINUS)
+    (hops : ∀ pl ∈ rest', pl.op = SP ∨ pl.op = PLUS ∨ pl.op = MINUS)
+    (hnl : noNlOnlyLast (pl :: rest') = true) (hafter : AfterOK after) :
+    ∃ n', stepOld (stepNew ⟨⟨⟨(if pl.line.newline = .none then [markerLine] else []) ++ bodyLines rest' ++ after, false, false⟩, n⟩,
+              hunks, ⟨o, nw, L ++ [⟨pl.op, ⟨pl.line.content, wireNl pl.line⟩⟩]⟩, true,
+              (oldOf (pl :: rest')).length, (newOf (pl :: rest')).length⟩ pl.op) pl.op
+      = ⟨⟨⟨bodyLines rest' ++ after, false, false⟩, n'⟩, hunks, ⟨o, nw, L ++ [pl]⟩, true,
+          (oldOf rest').length, (newOf rest').length⟩ :=
+  steps_specG pl (wireLf pl.line) rest' n hunks o nw L (bodyLines rest') after hop
+    (peek_body rest' after hafter hops false false) hnl (wireOK_wireLf pl.line).2.1 (wireOK_wireLf pl.line).2.2
 
 theorem bodyLines_cons_append (pl : PatchLine) (rest' : List PatchLine) (after : List Line) :
     bodyLines (pl :: rest') ++ after = ⟨pl.op :: pl.line.content, wireNl pl.line⟩ ::
@@ -706,33 +872,8 @@ theorem unifiedLoop_body : ∀ (rest : List PatchLine) (fuel n : Nat) (hunks : L
           (oldOf rest).length, (newOf rest).length⟩
         = afterHunk fuel' ⟨⟨⟨after, false, false⟩, n'⟩, hunks ++ [⟨o, nw, L ++ rest⟩], ⟨o, nw, []⟩,
             true, 0, 0⟩ := by
-  intro rest
-  induction rest with
-  | nil => intro _ _ _ _ _ _ _ h; exact absurd rfl h
-  | cons pl rest' ih =>
-    intro fuel n hunks o nw L after _ hops hnl hafter hfuel
-    have hop := hops pl List.mem_cons_self
-    have hops' : ∀ x ∈ rest', x.op = SP ∨ x.op = PLUS ∨ x.op = MINUS := fun x hx => hops x (List.mem_cons_of_mem _ hx)
-    rw [bodyLines_cons_append] at hfuel ⊢
-    obtain ⟨f, rfl⟩ : ∃ f, fuel = f + 1 := ⟨fuel - 1, by simp at hfuel; omega⟩
-    rw [unifiedLoop_content f _ ⟨pl.op :: pl.line.content, wireNl pl.line⟩ _ pl.op pl.line.content
-      (getLine_wire _ _ (wireNl_ne_none _) _ _) rfl rfl hop]
-    obtain ⟨n', hn'⟩ := steps_spec pl rest' (n + 1) hunks o nw L after hop hops' hnl hafter
-    dsimp only
-    rw [hn']
-    dsimp only
-    by_cases hr : rest' = []
-    · subst hr
-      refine ⟨f, n', ?_, ?_⟩
-      · simp at hfuel ⊢; omega
-      · simp [oldOf, newOf, bodyLines]
-    · rw [if_neg (sides_ne_nil rest' hr hops')]
-      have hnl' : noNlOnlyLast rest' = true := by
-        unfold noNlOnlyLast at hnl; simp only [Bool.and_eq_true] at hnl; exact hnl.2
-      obtain ⟨fuel', n'', h1, h2⟩ := ih f n' hunks o nw (L ++ [pl]) after hr hops' hnl' hafter
-        (by simp at hfuel ⊢; omega)
-      refine ⟨fuel', n'', h1, ?_⟩
-      rw [h2]; simp
+  rw [bodyLines_eq]
+  exact unifiedLoop_bodyG wireLf wireOK_wireLf
 
 /-! ### writable hunks -/
 
@@ -820,6 +961,233 @@ theorem normNl_eq (h : Hunk) : (⟨h.old, h.new, [] ++ h.lines.map PatchLine.nor
 /-- the hunk the body loop hands over is the hunk itself -/
 theorem hunk_eq (h : Hunk) : (⟨h.old, h.new, [] ++ h.lines⟩ : Hunk) = h := rfl
 
+/-- what the reader needs of a hunk (everything `Hunk.writable` asks for, except for the bytes of the lines) -/
+def Readable (h : Hunk) : Prop :=
+  (∀ pl ∈ h.lines, pl.op = SP ∨ pl.op = PLUS ∨ pl.op = MINUS) ∧
+  h.old.count = ((oldOf h.lines).length : Int) ∧ h.new.count = ((newOf h.lines).length : Int) ∧
+  h.lines ≠ [] ∧ noNlOnlyLast h.lines = true ∧
+  0 ≤ h.old.start ∧ 0 ≤ h.new.start ∧ h.old.start + h.old.count ≤ i64Max / 4 ∧ h.new.start + h.new.count ≤ i64Max / 4
+
+theorem readable_of_writable (h : Hunk) (hw : h.writable = true) : Readable h := by
+  obtain ⟨h1, h2, h3, h4, _, h6, h7, h8, h9, h10⟩ := writable_spec h hw
+  exact ⟨h1, h2, h3, h4, h6, h7, h8, h9, h10⟩
+
+theorem parseUnifiedRange_rangeText' (h0 h : Hunk) (hr : Readable h) :
+    parseUnifiedRange h0 (rangeText h) = (true, { h0 with old := h.old, new := h.new }) := by
+  obtain ⟨_, h2, h3, _, _, h7, h8, h9, h10⟩ := hr
+  exact unified_range_roundtrip h h0 h7 (by omega) h8 (by omega) (by omega) (by omega) (by omega) (by omega)
+
+theorem afterOK_hunkLinesG (w : Line → Line) (h : Hunk) (r : List Line) : AfterOK (hunkLinesG w h ++ r) := by
+  intro l hl
+  simp only [hunkLinesG, List.cons_append, List.head?_cons, Option.some.injEq] at hl
+  subst hl
+  simp only [rangeText, str_atat_minus, List.cons_append, List.head?_cons]
+  decide
+
+/-- the loop over a list of emitted hunks, entered after the first range line, over a wire form -/
+theorem unifiedLoop_hunksG (w : Line → Line) (hw : WireOK w) : ∀ (hs : List Hunk) (h : Hunk) (fuel n : Nat)
+    (hunks : List Hunk) (tail : List Line),
+    (∀ x ∈ h :: hs, Readable x) → tailOkUnified tail = true →
+    (bodyLinesG w h.lines ++ (hs.flatMap (hunkLinesG w) ++ tail)).length + 1 ≤ fuel →
+    ∃ st', unifiedLoop fuel ⟨⟨⟨bodyLinesG w h.lines ++ (hs.flatMap (hunkLinesG w) ++ tail), false, false⟩, n⟩, hunks,
+          ⟨h.old, h.new, []⟩, true, h.old.count, h.new.count⟩ = .ok (true, st') ∧
+      st'.hunks = hunks ++ (h :: hs) ∧ st'.par.s.rest = tail := by
+  intro hs
+  induction hs with
+  | nil =>
+    intro h fuel n hunks tail hr ht hfuel
+    obtain ⟨hops, hoc, hnc, hne, hnl, _⟩ := hr h List.mem_cons_self
+    simp only [List.flatMap_nil, List.nil_append] at hfuel ⊢
+    obtain ⟨fuel', n', _, h2⟩ := unifiedLoop_bodyG w hw h.lines fuel n hunks h.old h.new [] tail hne hops hnl
+      (afterOK_tail tail ht) hfuel
+    rw [hoc, hnc, h2, hunk_eq]
+    obtain ⟨st', e1, e2, e3⟩ := afterHunk_tail fuel' n' (hunks ++ [h]) ⟨h.old, h.new, []⟩ tail ht
+    exact ⟨st', e1, by rw [e2], e3⟩
+  | cons h2 hs ih =>
+    intro h fuel n hunks tail hr ht hfuel
+    obtain ⟨hops, hoc, hnc, hne, hnl, _⟩ := hr h List.mem_cons_self
+    have hr2 : Readable h2 := hr h2 (by simp)
+    rw [List.flatMap_cons, List.append_assoc] at hfuel ⊢
+    obtain ⟨fuel', n', h1, h2'⟩ := unifiedLoop_bodyG w hw h.lines fuel n hunks h.old h.new []
+      (hunkLinesG w h2 ++ (hs.flatMap (hunkLinesG w) ++ tail)) hne hops hnl (afterOK_hunkLinesG _ _ _) hfuel
+    rw [hoc, hnc, h2', hunk_eq]
+    unfold afterHunk
+    simp only [hunkLinesG, List.cons_append, getLine_lf, parseUnifiedRange_rangeText' _ h2 hr2, Bool.not_true,
+      Bool.false_eq_true, if_false]
+    obtain ⟨st', e1, e2, e3⟩ := ih h2 fuel' (n' + 1) (hunks ++ [h]) tail
+      (fun x hx => hr x (List.mem_cons_of_mem _ hx)) ht
+      (by simp only [hunkLinesG, List.cons_append, List.length_cons] at h1; omega)
+    refine ⟨st', e1, ?_, e3⟩
+    rw [e2]; simp
+
+/-- the text lines of readable hunks (in any wire form the marker undoes) are read back as those hunks -/
+theorem parse_hunkLinesG (w : Line → Line) (hw : WireOK w) (hs : List Hunk) (hne : hs ≠ []) (hr : ∀ h ∈ hs, Readable h)
+    (tail : List Line) (ht : tailOkUnified tail = true) (lineNo : Nat) :
+    ∃ par', parseUnifiedBody { s := { rest := hs.flatMap (hunkLinesG w) ++ tail }, lineNo := lineNo }
+        = .ok (hs, par') ∧ par'.s.rest = tail := by
+  cases hs with
+  | nil => exact absurd rfl hne
+  | cons h hs =>
+    unfold parseUnifiedBody
+    simp only [List.flatMap_cons, hunkLinesG, List.cons_append, List.length_cons]
+    rw [unifiedLoop_range _ _ ⟨rangeText h, .lf⟩ _ _ (getLine_lf _ _ _) rfl
+      (parseUnifiedRange_rangeText' defaultHunk h (hr h List.mem_cons_self))]
+    obtain ⟨st', e1, e2, e3⟩ := unifiedLoop_hunksG w hw hs h
+      ((bodyLinesG w h.lines ++ (List.flatMap (hunkLinesG w) hs ++ tail)).length + 2)
+      (lineNo + 1) [] tail hr ht (by omega)
+    simp only [defaultHunk, List.append_assoc]
+    rw [e1]
+    exact ⟨st'.par, by simp [e2], e3⟩
+
+/-! #### the text the writer emits, in the wire form `wire` -/
+
+/-- a line that comes back: no LF inside, and no CR at the end of a line that ends in LF -/
+def okLine (l : Line) : Bool := !l.content.contains NL && (l.newline != .lf || l.content.getLast? != some CR)
+
+/-- `Hunk.writable` with `okLine` in place of `plainLine` -/
+def writableCR (h : Hunk) : Bool :=
+  h.wfB && !h.lines.isEmpty && h.lines.all (fun pl => okLine pl.line) && noNlOnlyLast h.lines
+    && decide (0 ≤ h.old.start) && decide (0 ≤ h.new.start)
+    && decide (h.old.start + h.old.count ≤ i64Max / 4) && decide (h.new.start + h.new.count ≤ i64Max / 4)
+
+theorem okLine_of_plainLine {l : Line} (h : plainLine l = true) : okLine l = true := by
+  unfold plainLine at h
+  unfold okLine
+  simp only [Bool.and_eq_true] at h ⊢
+  exact ⟨h.1, by rw [h.2]; simp⟩
+
+theorem writableCR_of_writable {h : Hunk} (hw : h.writable = true) : writableCR h = true := by
+  unfold Hunk.writable at hw
+  unfold writableCR
+  simp only [Bool.and_eq_true, List.all_eq_true] at hw ⊢
+  obtain ⟨⟨⟨⟨⟨⟨⟨h1, h2⟩, h3⟩, h4⟩, h5⟩, h6⟩, h7⟩, h8⟩ := hw
+  exact ⟨⟨⟨⟨⟨⟨⟨h1, h2⟩, fun pl hpl => okLine_of_plainLine (h3 pl hpl)⟩, h4⟩, h5⟩, h6⟩, h7⟩, h8⟩
+
+theorem writableCR_spec (h : Hunk) (hw : writableCR h = true) :
+    Readable h ∧ ∀ pl ∈ h.lines, okLine pl.line = true := by
+  unfold writableCR Hunk.wfB at hw
+  simp only [Bool.and_eq_true, List.all_eq_true, Bool.or_eq_true, beq_iff_eq, decide_eq_true_eq,
+    Bool.not_eq_true', List.isEmpty_eq_false_iff] at hw
+  obtain ⟨⟨⟨⟨⟨⟨⟨⟨⟨h1, h2⟩, h3⟩, h4⟩, h5⟩, h6⟩, h7⟩, h8⟩, h9⟩, h10⟩ := hw
+  refine ⟨⟨?_, h2, h3, h4, h6, h7, h8, h9, h10⟩, h5⟩
+  intro pl hpl
+  rcases h1 pl hpl with (h | h) | h
+  · exact Or.inl h
+  · exact Or.inr (Or.inl h)
+  · exact Or.inr (Or.inr h)
+
+theorem mkLine_cons (op : UInt8) (c : Bytes) (hop : op ≠ CR) :
+    mkLine (op :: c) = ⟨op :: (mkLine c).content, (mkLine c).newline⟩ := by
+  cases c with
+  | nil =>
+    unfold mkLine
+    simp only [List.getLast?_singleton, Option.some.injEq, List.getLast?_nil]
+    rw [if_neg hop]; simp
+  | cons a r =>
+    unfold mkLine
+    rw [List.getLast?_cons_cons]
+    split
+    · simp
+    · simp
+
+/-- a hunk line written with `lineEnd` is read by `splitLines` in its wire form -/
+theorem splitLines_wireW (op : UInt8) (l : Line) (rest : Bytes) (hop : op ≠ NL ∧ op ≠ CR) (h1 : NL ∉ l.content)
+    (h2 : l.newline = .lf → l.content.getLast? ≠ some CR) :
+    splitLines ((op :: l.content) ++ (lineEnd l ++ rest))
+      = ⟨op :: (wire l).content, (wire l).newline⟩ :: splitLines rest := by
+  have h1' : NL ∉ op :: l.content := by
+    intro hm
+    rcases List.mem_cons.1 hm with h | h
+    · exact hop.1 h.symm
+    · exact h1 h
+  rcases l with ⟨c, nl⟩
+  cases nl with
+  | lf =>
+    have hl : (op :: c).getLast? ≠ some CR := by
+      cases c with
+      | nil => simpa using hop.2
+      | cons a r => rw [List.getLast?_cons_cons]; exact h2 rfl
+    have : lineEnd ⟨c, .lf⟩ = [NL] := rfl
+    rw [this]
+    simp only [wire, reduceCtorEq, if_false, List.singleton_append]
+    exact splitLines_line _ _ h1' hl
+  | crlf =>
+    have : lineEnd ⟨c, .crlf⟩ = [CR, NL] := rfl
+    rw [this]
+    simp only [wire, reduceCtorEq, if_false]
+    have e : (op :: c) ++ ([CR, NL] ++ rest) = ((op :: c) ++ [CR]) ++ NL :: rest := by simp
+    have h1'' : NL ∉ (op :: c) ++ [CR] := by
+      intro hm
+      rcases List.mem_append.1 hm with h | h
+      · exact h1' h
+      · simp at h; exact absurd h (by decide)
+    unfold splitLines
+    rw [e, splitLinesGo_line _ _ _ h1'', List.nil_append, mkLine_cr]
+  | none =>
+    have : lineEnd ⟨c, .none⟩ = [NL] := rfl
+    rw [this]
+    simp only [wire, if_true, List.singleton_append]
+    unfold splitLines
+    rw [splitLinesGo_line _ _ _ h1', List.nil_append, mkLine_cons _ _ hop.2]
+
+theorem splitLines_bodyW (ls : List PatchLine) (rest : Bytes)
+    (hops : ∀ pl ∈ ls, pl.op = SP ∨ pl.op = PLUS ∨ pl.op = MINUS)
+    (hok : ∀ pl ∈ ls, okLine pl.line = true) :
+    splitLines ((ls.flatMap fun pl => [pl.op] ++ pl.line.content ++ lineEnd pl.line
+            ++ (if pl.line.newline = NewLine.none then noNewlineMarker else [])) ++ rest)
+      = bodyLinesG wire ls ++ splitLines rest := by
+  induction ls with
+  | nil => simp [bodyLinesG]
+  | cons pl ls ih =>
+    have ih' := ih (fun x hx => hops x (List.mem_cons_of_mem _ hx)) (fun x hx => hok x (List.mem_cons_of_mem _ hx))
+    have hop := hops pl List.mem_cons_self
+    have hpl := hok pl List.mem_cons_self
+    unfold okLine at hpl
+    simp only [Bool.and_eq_true, Bool.not_eq_true', Bool.or_eq_true, bne_iff_ne, ne_eq] at hpl
+    have h1 : NL ∉ pl.line.content := by have := hpl.1; simp at this; exact this
+    have h2 : pl.line.newline = .lf → pl.line.content.getLast? ≠ some CR := by
+      intro e; rcases hpl.2 with h | h
+      · exact absurd e h
+      · exact h
+    have hop' : pl.op ≠ NL ∧ pl.op ≠ CR := by
+      rcases hop with e | e | e <;> rw [e] <;> exact ⟨by decide, by decide⟩
+    rw [List.flatMap_cons, bodyLinesG]
+    have e : ∀ (x y : Bytes), ([pl.op] ++ pl.line.content ++ lineEnd pl.line ++ x) ++ y
+        = (pl.op :: pl.line.content) ++ (lineEnd pl.line ++ (x ++ y)) := by
+      intro x y; simp
+    rw [List.append_assoc, e, splitLines_wireW _ _ _ hop' h1 h2, List.cons_append]
+    congr 1
+    revert ih'
+    generalize (List.flatMap _ ls ++ rest) = T
+    intro ih'
+    split
+    · rw [noNewlineMarker_eq, List.append_assoc, List.append_assoc, List.singleton_append,
+        splitLines_line _ _ (by decide) (by decide), ih']
+      rfl
+    · simpa using ih'
+
+theorem splitLines_hunksW (hs : List Hunk)
+    (hops : ∀ h ∈ hs, ∀ pl ∈ h.lines, pl.op = SP ∨ pl.op = PLUS ∨ pl.op = MINUS)
+    (hok : ∀ h ∈ hs, ∀ pl ∈ h.lines, okLine pl.line = true) :
+    splitLines (hs.flatMap writeHunkUnified) = hs.flatMap (hunkLinesG wire) := by
+  induction hs with
+  | nil => rfl
+  | cons h hs ih =>
+    rw [List.flatMap_cons, List.flatMap_cons, writeHunkUnified_eq, List.append_assoc, List.cons_append,
+      splitLines_line _ _ (rangeText_no_NL h) (rangeText_last h),
+      splitLines_bodyW _ _ (hops h List.mem_cons_self) (hok h List.mem_cons_self),
+      ih (fun x hx => hops x (List.mem_cons_of_mem _ hx)) (fun x hx => hok x (List.mem_cons_of_mem _ hx))]
+    rfl
+
+/-- **unified round trip, exact, a last line that ends in a bare CR included**: `unified_roundtrip` for hunks whose lines may
+    end in CR unless they end in LF (`writableCR`) -/
+theorem unified_roundtrip_cr (hs : List Hunk) (hne : hs ≠ []) (hw : ∀ h ∈ hs, writableCR h = true)
+    (tail : List Line) (ht : tailOkUnified tail = true) (lineNo : Nat) :
+    ∃ par', parseUnifiedBody { s := { rest := splitLines (hs.flatMap writeHunkUnified) ++ tail }, lineNo := lineNo }
+        = .ok (hs, par') ∧ par'.s.rest = tail := by
+  rw [splitLines_hunksW hs (fun h hh => (writableCR_spec h (hw h hh)).1.1) (fun h hh => (writableCR_spec h (hw h hh)).2)]
+  exact parse_hunkLinesG wire wireOK_wire hs hne (fun h hh => (writableCR_spec h (hw h hh)).1) tail ht lineNo
+
 /-- the loop over a list of emitted hunks, entered after the first range line -/
 theorem unifiedLoop_hunks : ∀ (hs : List Hunk) (h : Hunk) (fuel n : Nat) (hunks : List Hunk) (tail : List Line),
     (∀ x ∈ h :: hs, x.writable = true) → tailOkUnified tail = true →
@@ -827,55 +1195,19 @@ theorem unifiedLoop_hunks : ∀ (hs : List Hunk) (h : Hunk) (fuel n : Nat) (hunk
     ∃ st', unifiedLoop fuel ⟨⟨⟨bodyLines h.lines ++ (hs.flatMap hunkLines ++ tail), false, false⟩, n⟩, hunks,
           ⟨h.old, h.new, []⟩, true, h.old.count, h.new.count⟩ = .ok (true, st') ∧
       st'.hunks = hunks ++ (h :: hs) ∧ st'.par.s.rest = tail := by
-  intro hs
-  induction hs with
-  | nil =>
-    intro h fuel n hunks tail hw ht hfuel
-    obtain ⟨hops, hoc, hnc, hne, _, hnl, _⟩ := writable_spec h (hw h List.mem_cons_self)
-    simp only [List.flatMap_nil, List.nil_append] at hfuel ⊢
-    obtain ⟨fuel', n', _, h2⟩ := unifiedLoop_body h.lines fuel n hunks h.old h.new [] tail hne hops hnl
-      (afterOK_tail tail ht) hfuel
-    rw [hoc, hnc, h2, hunk_eq]
-    obtain ⟨st', e1, e2, e3⟩ := afterHunk_tail fuel' n' (hunks ++ [h]) ⟨h.old, h.new, []⟩ tail ht
-    exact ⟨st', e1, by rw [e2], e3⟩
-  | cons h2 hs ih =>
-    intro h fuel n hunks tail hw ht hfuel
-    obtain ⟨hops, hoc, hnc, hne, _, hnl, _⟩ := writable_spec h (hw h List.mem_cons_self)
-    have hw2 : h2.writable = true := hw h2 (by simp)
-    rw [List.flatMap_cons, List.append_assoc] at hfuel ⊢
-    obtain ⟨fuel', n', h1, h2'⟩ := unifiedLoop_body h.lines fuel n hunks h.old h.new []
-      (hunkLines h2 ++ (hs.flatMap hunkLines ++ tail)) hne hops hnl (afterOK_hunkLines _ _) hfuel
-    rw [hoc, hnc, h2', hunk_eq]
-    unfold afterHunk
-    simp only [hunkLines, List.cons_append, getLine_lf, parseUnifiedRange_rangeText _ h2 hw2, Bool.not_true,
-      Bool.false_eq_true, if_false]
-    obtain ⟨st', e1, e2, e3⟩ := ih h2 fuel' (n' + 1) (hunks ++ [h]) tail
-      (fun x hx => hw x (List.mem_cons_of_mem _ hx)) ht
-      (by simp only [hunkLines, List.cons_append, List.length_cons] at h1; omega)
-    refine ⟨st', e1, ?_, e3⟩
-    rw [e2]; simp
+  intro hs h fuel n hunks tail hw
+  rw [bodyLines_eq, hunkLines_eq]
+  exact unifiedLoop_hunksG wireLf wireOK_wireLf hs h fuel n hunks tail (fun x hx => readable_of_writable x (hw x hx))
 
 /-- **unified round trip, exact**: what `write_hunk_as_unified` writes for writable hunks is read back by
     `parse_unified_patch` as those very hunks — contents, operations, ranges and the terminator class (LF, CR LF, none)
     of every line.  (Statement changed with the model: the writer now keeps CR LF; before, the hunks came back as
-    `hs.map Hunk.normNl`, see `unified_roundtrip_normNl`.) -/
+    `hs.map Hunk.normNl`, see `unified_roundtrip_normNl`.)  A special case of `unified_roundtrip_cr`. -/
 theorem unified_roundtrip (hs : List Hunk) (hne : hs ≠ []) (hw : ∀ h ∈ hs, h.writable = true)
     (tail : List Line) (ht : tailOkUnified tail = true) (lineNo : Nat) :
     ∃ par', parseUnifiedBody { s := { rest := splitLines (hs.flatMap writeHunkUnified) ++ tail }, lineNo := lineNo }
-        = .ok (hs, par') ∧ par'.s.rest = tail := by
-  rw [splitLines_hunks hs (fun h hh => (writable_spec h (hw h hh)).1) (fun h hh => (writable_spec h (hw h hh)).2.2.2.2.1)]
-  cases hs with
-  | nil => exact absurd rfl hne
-  | cons h hs =>
-    unfold parseUnifiedBody
-    simp only [List.flatMap_cons, hunkLines, List.cons_append, List.length_cons]
-    rw [unifiedLoop_range _ _ ⟨rangeText h, .lf⟩ _ _ (getLine_lf _ _ _) rfl
-      (parseUnifiedRange_rangeText defaultHunk h (hw h List.mem_cons_self))]
-    obtain ⟨st', e1, e2, e3⟩ := unifiedLoop_hunks hs h ((bodyLines h.lines ++ (List.flatMap hunkLines hs ++ tail)).length + 2)
-      (lineNo + 1) [] tail hw ht (by omega)
-    simp only [defaultHunk, List.append_assoc]
-    rw [e1]
-    exact ⟨st'.par, by simp [e2], e3⟩
+        = .ok (hs, par') ∧ par'.s.rest = tail :=
+  unified_roundtrip_cr hs hne (fun h hh => writableCR_of_writable (hw h hh)) tail ht lineNo
 
 /-- the old form of the round trip (LF/CRLF class forgotten) is a consequence of the exact one -/
 theorem unified_roundtrip_normNl (hs : List Hunk) (hne : hs ≠ []) (hw : ∀ h ∈ hs, h.writable = true)
